@@ -55,7 +55,7 @@ var uni = &universe{
 	methods:     []string{"meth-a", "meth-b"},
 	ixnIDs:      []string{"77777777-7777-7777-7777-777777777771", "77777777-7777-7777-7777-777777777772", "77777777-7777-7777-7777-777777777773"},
 	dcs:         []string{"dc1", "dc2"},
-	metaKeys:    []string{"virtual-ips", "intention-format", "termgw-virtual-ips", "key1"},
+	metaKeys:    []string{"virtual-ips", "intention-format", "virtual-ips-term-gateway", "key1"},
 	rootIDs:     []string{"root-1", "root-2", "root-3"},
 	secretIDs:   []string{"5ec7e700-0000-0000-0000-000000000001", "5ec7e700-0000-0000-0000-000000000002", "5ec7e700-0000-0000-0000-000000000003", "5ec7e700-0000-0000-0000-000000000004"},
 }
@@ -72,10 +72,11 @@ type wcmd struct {
 }
 
 type wgen struct {
-	rng *rand.Rand
-	st  func() *state.Store
-	idx uint64
-	mix string
+	rng    *rand.Rand
+	st     func() *state.Store
+	idx    uint64
+	mix    string
+	vipsOn bool
 }
 
 func (g *wgen) pick(xs []string) string { return xs[g.rng.Intn(len(xs))] }
@@ -1028,7 +1029,7 @@ func (g *wgen) misc() wcmd {
 		k := g.pick(uni.metaKeys)
 		v := g.pick([]string{"true", "false", "config-entry", "legacy", "val1"})
 		switch k {
-		case "virtual-ips", "termgw-virtual-ips":
+		case "virtual-ips", "virtual-ips-term-gateway":
 			v = "true"
 		case "intention-format":
 			v = g.pick([]string{"config-entry", "legacy"})
@@ -1085,6 +1086,9 @@ func (g *wgen) misc() wcmd {
 			mustEncode(structs.FeatureGateRequestType, req))
 	case 5, 6:
 		svc := g.pick([]string{"web", "api", "db", "nosuch"})
+		if _, vips, _ := g.st().ServiceVirtualIPs(); len(vips) > 0 && g.rng.Intn(5) > 0 {
+			svc = vips[g.rng.Intn(len(vips))].Service.ServiceName.Name
+		}
 		var ips []string
 		for n := g.rng.Intn(3); n > 0; n-- {
 			ips = append(ips, g.pick([]string{"10.9.0.1", "10.9.0.2", "10.9.0.3"}))
@@ -1120,7 +1124,7 @@ func (g *wgen) next() wcmd {
 		//          reg dereg kvs sess+ sess- query txn aclP aclR aclT aclM cfg ixn ca peer misc
 		"catalog": {30, 8, 6, 6, 3, 3, 8, 1, 1, 1, 1, 14, 4, 2, 4, 8},
 		"kv":      {10, 3, 30, 8, 5, 5, 14, 1, 1, 1, 1, 3, 1, 1, 1, 6},
-		"mesh":    {22, 5, 3, 2, 1, 2, 4, 1, 1, 1, 1, 26, 10, 6, 6, 10},
+		"mesh":    {22, 5, 3, 2, 1, 2, 4, 1, 1, 1, 1, 24, 9, 5, 5, 16},
 		"admin":   {8, 2, 4, 3, 2, 3, 3, 8, 7, 10, 7, 6, 4, 10, 12, 10},
 	}[g.mix]
 	tot := 0
@@ -1137,6 +1141,13 @@ func (g *wgen) next() wcmd {
 	}
 	if len(g.existingNodes("")) == 0 && g.rng.Intn(3) > 0 {
 		k = 0
+	}
+	if g.mix == "mesh" && !g.vipsOn && g.rng.Intn(3) > 0 {
+		// most connect deployments have virtual IPs enabled from the start
+		g.vipsOn = true
+		return g.mk("sysmeta:set", "system-metadata set virtual-ips=true",
+			mustEncode(structs.SystemMetadataRequestType, &structs.SystemMetadataRequest{Datacenter: "dc1", Op: structs.SystemMetadataUpsert,
+				Entry: &structs.SystemMetadataEntry{Key: structs.SystemMetadataVirtualIPsEnabled, Value: "true"}}))
 	}
 	switch k {
 	case 0:
